@@ -49,7 +49,8 @@ PARTIAL = ("the transaction-level theorems are tied to the cycle-level models by
            "(sig_cycle_refines_event/_run, in_cycle_refines_event/_run: toggle advance on the gated ACK, halt-clear reset "
            "incl. WAIT_TO_SEND; out_cycle_refines_event/_run: expected toggle advances exactly on an ACKed packet with the "
            "expected toggle, halt-clear reset with the status-stage ACK), each under its environment hypotheses (stream "
-           "events between transactions; OUT: bus packets no longer than the endpoint's max packet size); the lemmas are "
+           "events between transactions; OUT: packets addressed to the endpoint no longer than its max packet size and "
+           "fitting its FIFO, bus packets of other transactions of any length); the lemmas are "
            "per endpoint, not composed into one cycle-level whole-device statement")
 
 I, O, P, S = U.PID_IN, U.PID_OUT, U.PID_PING, U.PID_SETUP
